@@ -63,7 +63,7 @@ static void rle_case(const uint32_t* v, int64_t n, int width, int do_stream) {
     /* --- encode_all / decode_all --- */
     carquet_buffer_t buf; carquet_buffer_init(&buf);
     carquet_status_t st = carquet_rle_encode_all(v, n, width, &buf);
-    if (st != CARQUET_OK) { v_count("rle_encode_refused"); carquet_buffer_destroy(&buf); return; }
+    if (st != CARQUET_OK) { v_count("rle_encode_refused"); if (n > 0) v_viol("rle:encoder-refuses-nonempty-input", "width=%d n=%lld status=%d", width, (long long)n, st); carquet_buffer_destroy(&buf); return; }
     uint8_t* enc = v_exact_copy(buf.data, buf.size); size_t enc_n = buf.size;
     uint32_t* out = v_exact((size_t)n * 4);
     /* --- the streaming encoder fed run by run (put_repeat for whole runs, parts of runs and runs of length 1, put otherwise), as the level writers use it --- */
@@ -324,7 +324,7 @@ static void delta_case64(const int64_t* v, int32_t n) {
     size_t cap = (size_t)n * 12 + 2000; uint8_t* tmp = v_exact(cap); size_t wr = 0;
     carquet_status_t st = carquet_delta_encode_int64(v, n, tmp, cap, &wr);
     v_case(n >= 2 ? v_hash(v, (size_t)n * 8, 64) : 0);
-    if (st != CARQUET_OK) { v_count("delta64_encode_refused"); free(tmp); return; }
+    if (st != CARQUET_OK) { v_count("delta64_encode_refused"); if (n > 0) v_viol("delta64:encoder-refuses-nonempty-input", "n=%lld status=%d", (long long)n, st); free(tmp); return; }
     if (strcmp(delta_shape64(v, n), "max-width>32") == 0) v_count("delta64_width_gt32");
     uint8_t* e = v_exact_copy(tmp, wr); int64_t* o = v_exact((size_t)n * 8); size_t used = 0;
     st = carquet_delta_decode_int64(e, wr, o, n, &used);
@@ -336,7 +336,7 @@ static void delta_case32(const int32_t* v, int32_t n) {
     size_t cap = (size_t)n * 12 + 2000; uint8_t* tmp = v_exact(cap); size_t wr = 0;
     carquet_status_t st = carquet_delta_encode_int32(v, n, tmp, cap, &wr);
     v_case(n >= 2 ? v_hash(v, (size_t)n * 4, 32) : 0);
-    if (st != CARQUET_OK) { v_count("delta32_encode_refused"); free(tmp); return; }
+    if (st != CARQUET_OK) { v_count("delta32_encode_refused"); if (n > 0) v_viol("delta32:encoder-refuses-nonempty-input", "n=%lld status=%d", (long long)n, st); free(tmp); return; }
     uint8_t* e = v_exact_copy(tmp, wr); int32_t* o = v_exact((size_t)n * 4); size_t used = 0;
     st = carquet_delta_decode_int32(e, wr, o, n, &used);
     if (n > 0 && (st != CARQUET_OK || memcmp(o, v, (size_t)n * 4))) v_viol("delta32:roundtrip-values", "n=%d status=%d", n, st);
@@ -391,7 +391,7 @@ static void sec_dstr(int scale) {
             carquet_buffer_t b; carquet_buffer_init(&b);
             carquet_status_t st = which == 0 ? carquet_delta_length_encode(v, n, &b) : carquet_delta_strings_encode(v, n, &b);
             v_case(n >= 2 ? h + (uint64_t)which : 0);
-            if (st != CARQUET_OK) { v_count(which ? "delta_strings_encode_refused" : "delta_length_encode_refused"); carquet_buffer_destroy(&b); continue; }
+            if (st != CARQUET_OK) { v_count(which ? "delta_strings_encode_refused" : "delta_length_encode_refused"); if (n > 0) v_viol(which ? "delta_strings:encoder-refuses-nonempty-input" : "delta_length:encoder-refuses-nonempty-input", "n=%d status=%d", (int)n, st); carquet_buffer_destroy(&b); continue; }
             uint8_t* e = v_exact_copy(b.data, b.size); carquet_byte_array_t* o = v_exact((size_t)n * sizeof *o); size_t used = 0;
             size_t wsz = which ? carquet_delta_strings_work_buffer_size(v, n) : 0; uint8_t* work = v_exact(wsz);
             st = which == 0 ? carquet_delta_length_decode(e, b.size, o, n, &used) : carquet_delta_strings_decode(e, b.size, o, n, work, wsz, &used);
